@@ -5,8 +5,11 @@ import (
 	"go/ast"
 	"go/printer"
 	"go/token"
+	"go/types"
 	"sort"
 	"strings"
+
+	"golang.org/x/tools/go/packages"
 )
 
 func exprString(c *ctx, e ast.Node) string {
@@ -29,6 +32,17 @@ func switchTable(c *ctx, fd *ast.FuncDecl, p pkgT) (cases [][2]string, dflt ast.
 	for _, cc := range sw.Body.List {
 		clause := cc.(*ast.CaseClause)
 		if clause.List == nil {
+			// `if c { return A }; return B` is `if c { return A } else { return B }`
+			if len(clause.Body) == 2 {
+				ifs, ok1 := clause.Body[0].(*ast.IfStmt)
+				ret, ok2 := clause.Body[1].(*ast.ReturnStmt)
+				if ok1 && ok2 && ifs.Else == nil && ifs.Init == nil && len(ifs.Body.List) == 1 {
+					if _, isRet := ifs.Body.List[0].(*ast.ReturnStmt); isRet {
+						dflt = &ast.IfStmt{If: ifs.If, Cond: ifs.Cond, Body: ifs.Body, Else: &ast.BlockStmt{List: []ast.Stmt{ret}}}
+						continue
+					}
+				}
+			}
 			if len(clause.Body) != 1 {
 				return nil, nil, fmt.Errorf("%s: default with %d statements", fd.Name.Name, len(clause.Body))
 			}
@@ -68,6 +82,97 @@ func renderCases(cases [][2]string) string {
 	return "[" + strings.Join(parts, ", ") + "]"
 }
 
+// enumDecoders: the name each decoder has in the generated Lean (historical Go names) ↦ how it is found in the source:
+// the one package-level function with this result type and parameter shape ("s" = (string), "sb" = (string, bool),
+// "p" = (pointer to an integer)). Found by signature, so a renamed decoder is still the same decoder.
+var enumDecoders = [][3]string{
+	{"parseBikesAllowed", "BikesAllowed", "s"}, {"parseDirectionID_GTFSStatic", "DirectionID", "s"}, {"parseExactTimes", "ExactTimes", "s"},
+	{"parsePickupDropOffPolicy", "PickupDropOffPolicy", "s"}, {"parseRouteType_GTFSStatic", "RouteType", "s"},
+	{"parseTransferType", "TransferType", "s"}, {"parseWheelchairBoarding", "WheelchairBoarding", "s"},
+	{"parseStopType", "StopType", "sb"}, {"parseDirectionID_GTFSRealtime", "DirectionID", "p"}, {"parseRouteType_GTFSRealtime", "RouteType", "p"},
+}
+
+func findDecoder(p *packages.Package, leanName string) *ast.FuncDecl {
+	var result, shape string
+	for _, e := range enumDecoders {
+		if e[0] == leanName {
+			result, shape = e[1], e[2]
+		}
+	}
+	var found []*ast.FuncDecl
+	for _, f := range p.Syntax {
+		for _, d := range f.Decls {
+			fd, ok := d.(*ast.FuncDecl)
+			if !ok || fd.Recv != nil || fd.Body == nil {
+				continue
+			}
+			fn, ok := p.TypesInfo.ObjectOf(fd.Name).(*types.Func)
+			if !ok {
+				continue
+			}
+			sig := fn.Type().(*types.Signature)
+			if sig.Results().Len() != 1 {
+				continue
+			}
+			named, ok := sig.Results().At(0).Type().(*types.Named)
+			if !ok || named.Obj().Pkg() != p.Types || named.Obj().Name() != result {
+				continue
+			}
+			isStr := func(t types.Type) bool { b, ok := t.(*types.Basic); return ok && b.Kind() == types.String }
+			isBool := func(t types.Type) bool { b, ok := t.(*types.Basic); return ok && b.Kind() == types.Bool }
+			isIntPtr := func(t types.Type) bool {
+				pt, ok := t.(*types.Pointer)
+				if !ok {
+					return false
+				}
+				b, ok := pt.Elem().(*types.Basic)
+				return ok && b.Info()&types.IsInteger != 0
+			}
+			ps := sig.Params()
+			match := false
+			switch shape {
+			case "s":
+				match = ps.Len() == 1 && isStr(ps.At(0).Type())
+			case "sb":
+				match = ps.Len() == 2 && isStr(ps.At(0).Type()) && isBool(ps.At(1).Type())
+			case "p":
+				match = ps.Len() == 1 && isIntPtr(ps.At(0).Type())
+			}
+			if match {
+				found = append(found, fd)
+			}
+		}
+	}
+	if len(found) != 1 {
+		return nil
+	}
+	return found[0]
+}
+
+// canonicalDecoderName: the Lean name of an enum decoder called as `id`, or the identifier itself
+func canonicalDecoderName(p *packages.Package, id *ast.Ident) string {
+	obj := p.TypesInfo.ObjectOf(id)
+	for _, e := range enumDecoders {
+		if fd := findDecoder(p, e[0]); fd != nil && p.TypesInfo.ObjectOf(fd.Name) == obj {
+			return e[0]
+		}
+	}
+	return id.Name
+}
+
+func paramName(fd *ast.FuncDecl, i int) string {
+	k := 0
+	for _, fld := range fd.Type.Params.List {
+		for _, n := range fld.Names {
+			if k == i {
+				return n.Name
+			}
+			k++
+		}
+	}
+	return "?"
+}
+
 func genEnums(c *ctx) (string, error) {
 	p := c.pkg("")
 	var sb strings.Builder
@@ -76,7 +181,7 @@ func genEnums(c *ctx) (string, error) {
 	simple := []string{"parseBikesAllowed", "parseDirectionID_GTFSStatic", "parseExactTimes", "parsePickupDropOffPolicy",
 		"parseRouteType_GTFSStatic", "parseTransferType", "parseWheelchairBoarding"}
 	for _, name := range simple {
-		fd := findFunc(p, name)
+		fd := findDecoder(p, name)
 		if fd == nil {
 			return "", fmt.Errorf("function %s not found", name)
 		}
@@ -98,7 +203,7 @@ func genEnums(c *ctx) (string, error) {
 	// parseStopType: default branch depends on hasParentStop
 	{
 		name := "parseStopType"
-		fd := findFunc(p, name)
+		fd := findDecoder(p, name)
 		if fd == nil {
 			return "", fmt.Errorf("function %s not found", name)
 		}
@@ -111,7 +216,7 @@ func genEnums(c *ctx) (string, error) {
 			return "", fmt.Errorf("parseStopType: default is not an if")
 		}
 		cond, ok := ifs.Cond.(*ast.Ident)
-		if !ok || cond.Name != "hasParentStop" {
+		if !ok || cond.Name != paramName(fd, 1) {
 			return "", fmt.Errorf("parseStopType: unexpected condition %s", exprString(c, ifs.Cond))
 		}
 		one := func(b *ast.BlockStmt) (int64, error) {
@@ -142,11 +247,12 @@ func genEnums(c *ctx) (string, error) {
 	}
 	// parseDirectionID_GTFSRealtime: nil / 0 / other
 	{
-		fd := findFunc(p, "parseDirectionID_GTFSRealtime")
+		fd := findDecoder(p, "parseDirectionID_GTFSRealtime")
 		if fd == nil {
 			return "", fmt.Errorf("parseDirectionID_GTFSRealtime not found")
 		}
-		want := []string{"raw == nil", "*raw == 0"}
+		raw := paramName(fd, 0)
+		want := []string{raw + " == nil", "*" + raw + " == 0"}
 		var vals []int64
 		if len(fd.Body.List) != 3 {
 			return "", fmt.Errorf("parseDirectionID_GTFSRealtime: %d statements", len(fd.Body.List))
@@ -175,12 +281,14 @@ func genEnums(c *ctx) (string, error) {
 	}
 	// parseRouteType_GTFSRealtime
 	{
-		fd := findFunc(p, "parseRouteType_GTFSRealtime")
-		if fd == nil || len(fd.Body.List) != 2 {
+		fd := findDecoder(p, "parseRouteType_GTFSRealtime")
+		static := findDecoder(p, "parseRouteType_GTFSStatic")
+		if fd == nil || static == nil || len(fd.Body.List) != 2 {
 			return "", fmt.Errorf("parseRouteType_GTFSRealtime: shape")
 		}
+		raw := paramName(fd, 0)
 		ifs, ok := fd.Body.List[0].(*ast.IfStmt)
-		if !ok || exprString(c, ifs.Cond) != "raw == nil" || len(ifs.Body.List) != 1 {
+		if !ok || exprString(c, ifs.Cond) != raw+" == nil" || len(ifs.Body.List) != 1 {
 			return "", fmt.Errorf("parseRouteType_GTFSRealtime: shape")
 		}
 		r0 := ifs.Body.List[0].(*ast.ReturnStmt)
@@ -189,7 +297,7 @@ func genEnums(c *ctx) (string, error) {
 			return "", fmt.Errorf("parseRouteType_GTFSRealtime: nil value")
 		}
 		r1, ok := fd.Body.List[1].(*ast.ReturnStmt)
-		if !ok || exprString(c, r1.Results[0]) != "parseRouteType_GTFSStatic(strconv.FormatInt(int64(*raw), 10))" {
+		if !ok || exprString(c, r1.Results[0]) != static.Name.Name+"(strconv.FormatInt(int64(*"+raw+"), 10))" {
 			return "", fmt.Errorf("parseRouteType_GTFSRealtime: second return is %s", exprString(c, fd.Body.List[1]))
 		}
 		fmt.Fprintf(&sb, "/-- `parseRouteType_GTFSRealtime`: nil ↦ this value, otherwise the static decoder on the decimal rendering -/\ndef routeTypeRT_nil : Int := %s\n\n", leanInt(v))
